@@ -47,7 +47,7 @@ static void ser_bytes(const uint8_t *s) {
 }
 
 static void ser(Janet x, int depth) {
-    if (depth > 60) { unsupported = 1; fputs("nil", stdout); return; }
+    if (depth > 400) { unsupported = 1; fputs("nil", stdout); return; }
     switch (janet_type(x)) {
         case JANET_NUMBER: {
             double d = janet_unwrap_number(x); uint64_t u; memcpy(&u, &d, 8);
